@@ -54,9 +54,9 @@ func VerifC20LoadOrStoreFn() {
 // a small linearizability check: 2 threads x up to 2 operations over keys {k0,k1}
 type vOp struct {
 	kind, key, arg int // kind: 0 Load 1 Store 2 LoadOrStore 3 LoadOrStoreFn 4 Delete
-	res           int // returned value (0 = none)
-	ok            bool
-	call, ret     int64
+	res            int // returned value (0 = none)
+	ok             bool
+	call, ret      int64
 }
 
 func vApply(m *Map[int, int], o *vOp, clock *int64, mu *sync.Mutex) {
